@@ -145,6 +145,35 @@ fn text_mutants(t: &str) -> Vec<String> {
     v
 }
 
+/// scale mutants of a valid text file: one table row repeated `n` times with its leading line/index number counting up (the rows after it
+/// renumbered accordingly), for every row of every table. Identified by (text index, line index, n) instead of their (huge) contents.
+fn scale_text_mutant(t: &str, line: usize, n: usize) -> Option<String> {
+    let lines: Vec<&str> = t.lines().collect();
+    let l = lines.get(line)?;
+    let cells: Vec<&str> = l.split(" | ").collect();
+    if cells.len() < 2 { return None; }
+    let first: usize = cells[0].trim().parse().ok()?;
+    let mut out: Vec<String> = lines[..line].iter().map(|s| s.to_string()).collect();
+    for k in 0..n { let mut c: Vec<String> = cells.iter().map(|s| s.to_string()).collect(); c[0] = (first + k).to_string(); out.push(c.join(" | ")); }
+    // following rows of the same table (up to the next divider) are renumbered so that the numbering stays increasing
+    let mut in_table = true;
+    for l2 in &lines[line + 1..] {
+        if l2.starts_with('=') || l2.starts_with('.') || l2.is_empty() { in_table = false; }
+        if in_table { let c2: Vec<&str> = l2.split(" | ").collect(); if let Ok(v) = c2[0].trim().parse::<usize>() { let mut c: Vec<String> = c2.iter().map(|s| s.to_string()).collect(); c[0] = (v + n - 1).to_string(); out.push(c.join(" | ")); continue; } }
+        out.push(l2.to_string());
+    }
+    let mut s = out.join("\n"); s.push('\n'); Some(s)
+}
+const SCALE_N: [usize; 6] = [255, 256, 257, 65535, 65536, 70000];
+fn scale_texts() -> Vec<String> {
+    // a small debug object with an addressed line followed by an unaddressed one, and a linked object with labels and relocations
+    let fam = objrt::family(false);
+    let mut v = vec![];
+    for want in ["base", "link(", "linkfam use"] { if let Some(c) = fam.iter().find(|c| c.desc.starts_with(want) && c.obj.symbol_table().and_then(|s| s.source_info()).is_some() && TextFormat::serialize(&c.obj).lines().count() < 60) { v.push(TextFormat::serialize(&c.obj)); } }
+    v.push("LC-3 OBJ FILE\n\n.TEXT\n3000\n1\nF025\n\n.SYMBOL\n\n.LINKER_INFO\n\n.DEBUG\n====================\nLINE | ADDR | SOURCE\n0 | 3000 | HALT\\n\n1 | ???? | .end\n====================\n".to_string());
+    v
+}
+
 pub fn run(ctx: &Ctx) -> Report {
     let mut rep = Report::new("binary: every byte string of length <=2 (thorough 3) after the valid header; for each of 30 (60) valid blobs of distinct shapes: truncation at every length, every byte replaced by 10 values, every length/address/line/index field replaced by a boundary set (0,1,cur+-1,max-1,max,2^63,u32::MAX+1,xFE00,...), every chunk deleted/duplicated/moved to the end, and (thorough) every pair of field edits; text: for each of 30 (60) valid files: every line deleted/duplicated/swapped/truncated-after, 14 structural lines inserted at every position (dividers, section headers, table headers), every numeric token replaced by 14 boundary tokens. Every accepted object is re-serialized in both formats, linked with 6 assembled files in both orders and loaded into a simulator, all under catch_unwind. non-trivial = mutated input that the reader accepted");
     // (a) short suffixes
@@ -212,6 +241,20 @@ pub fn run(ctx: &Ctx) -> Report {
         }
     });
     rep.absorb(r);
+    // (c') scale mutants: every table row of a few valid texts repeated 255 .. 70000 times
+    let st = scale_texts();
+    let mut jobs: Vec<(usize, usize, usize)> = vec![];
+    for (ti, t) in st.iter().enumerate() { for li in 0..t.lines().count() { if scale_text_mutant(t, li, 2).is_some() { for n in SCALE_N { jobs.push((ti, li, n)); } } } }
+    let r = sweep(ctx, jobs.len() as u64, 1, |j, acc| {
+        let (ti, li, n) = jobs[j as usize];
+        let Some(m) = scale_text_mutant(&st[ti], li, n) else { return };
+        acc.evals += 1; acc.transitions += 1; acc.count("scale_text_mutants", 1);
+        let (accepted, res) = check_text(&m);
+        if accepted { acc.nontrivial += 1; acc.count("accepted", 1); acc.count("scale_text_mutants_accepted", 1); } else { acc.count("rejected", 1); }
+        if let Some((sig, d)) = res { acc.violation(sig, format!("scale:{ti}:{li}:{n}"), d); }
+    });
+    rep.absorb(r);
+    rep.require(rep.acc.get("scale_text_mutants_accepted") > 5, "some very long tables were accepted by the reader and exercised");
     // (d) short texts
     for t in ["", "LC-3 OBJ FILE", "LC-3 OBJ FILE\n.DEBUG\n=", "LC-3 OBJ FILE\n.DEBUG\n=\n=", "LC-3 OBJ FILE\n.DEBUG\n=\n=\n=", "LC-3 OBJ FILE\n.DEBUG\nLABEL | INDEX\n=", "LC-3 OBJ FILE\n.TEXT\nFFFF\n2\n0000\n0000", "LC-3 OBJ FILE\n.TEXT\n", "LC-3 OBJ FILE\nFFFF", "LC-3 OBJ FILE\n.SYMBOL\nADDR | EXT | LABEL\n0000 | 1 | A\n.LINKER_INFO\nADDR | LABEL\n3000 | A",
               "LC-3 OBJ FILE\n.DEBUG\n=\nLINE | ADDR | SOURCE\n0 | 3000 | \\u{110000}\n=", "LC-3 OBJ FILE\n.DEBUG\n=\nLINE | ADDR | SOURCE\n0 | 3000 | \\\n="] {
@@ -227,6 +270,7 @@ pub fn run(ctx: &Ctx) -> Report {
 
 pub fn replay(case: &str) -> Option<String> {
     if let Some(h) = case.strip_prefix("bin:") { return check_bin(&unhex(h)?).1.map(|x| format!("[{}] {}", x.0, x.1)); }
+    if let Some(r) = case.strip_prefix("scale:") { let q: Vec<usize> = r.split(':').filter_map(|x| x.parse().ok()).collect(); let st = scale_texts(); return check_text(&scale_text_mutant(st.get(*q.first()?)?, *q.get(1)?, *q.get(2)?)?).1.map(|x| format!("[{}] {}", x.0, x.1)); }
     if let Some(h) = case.strip_prefix("txt:") { return check_text(&String::from_utf8(unhex(h)?).ok()?).1.map(|x| format!("[{}] {}", x.0, x.1)); }
     None
 }
